@@ -1,8 +1,12 @@
 /-
 C02 (decoders are total): proofs about the checked-index model of `gdef.Read`
-(`SfntV.Total.Gdef.read`): no panic for any input and any non-panicking sub-readers, an explicit
-cost bound, and the finding that the allocation is NOT proportional to the input size (all
-mark-glyph-set offsets may alias one coverage table, DESIGN §9 #37).
+(`SfntV.Total.Gdef.read`, the REPAIRED code that decodes every distinct coverage offset once): no
+panic for any input and any non-panicking sub-readers, an explicit cost bound, and the finding
+(DESIGN §9 #37) in three parts: (a) the pre-repair code `readOld` decoded one aliased coverage
+table once per offset entry (`readOld_adv_alloc`); (b) the repaired code decodes it once
+(`adv_alloc_cached`); (c) the allocation is STILL not proportional to the input size: distinct
+offsets (4 bytes each) are each a full sub-read (`advDistinct_alloc`,
+`read_alloc_not_proportional`).
 -/
 import SfntV.Model.TotalGdef
 
@@ -116,34 +120,41 @@ theorem readOffsets_ok (b : Bytes) : ∀ (n pos : Nat) (acc : List Nat) (c : Cos
     omega
 
 theorem readSets_noPanic (cov : Sub) (hcov : ∀ p, (cov p).noPanic) (base : Nat) (offs : List Nat) :
-    ∀ (n i : Nat) (acc : List Nat) (c : Cost), i + n ≤ offs.length →
-      (readSets cov base offs n i acc c).noPanic
-  | 0, _, _, _, _ => True.intro
-  | n+1, i, acc, c, h => by
+    ∀ (n i : Nat) (sets : List (Nat × Nat)) (acc : List Nat) (c : Cost), i + n ≤ offs.length →
+      (readSets cov base offs n i sets acc c).noPanic
+  | 0, _, _, _, _, _ => True.intro
+  | n+1, i, sets, acc, c, h => by
     unfold readSets
     rw [idx_ok _ offs i (by omega), ok_bind]
-    refine bind_noPanic (hcov _) (fun r _ => ?_)
-    exact readSets_noPanic cov hcov base offs n (i + 1) _ _ (by omega)
+    split
+    · exact readSets_noPanic cov hcov base offs n (i + 1) _ _ _ (by omega)
+    · refine bind_noPanic (hcov _) (fun r _ => ?_)
+      exact readSets_noPanic cov hcov base offs n (i + 1) _ _ _ (by omega)
 
+/-- cost of the repaired loop: at most one sub-read and one map entry per iteration -/
 theorem readSets_cost (cov : Sub) (C : Nat)
     (hcov : ∀ p sz d, cov p = .ok (sz, d) → d.steps ≤ C ∧ d.alloc ≤ C)
     (base : Nat) (offs : List Nat) :
-    ∀ (n i : Nat) (acc : List Nat) (c : Cost) (r : List Nat) (c' : Cost),
-      readSets cov base offs n i acc c = .ok (r, c') →
-      c'.steps ≤ c.steps + n + n * C ∧ c'.alloc ≤ c.alloc + n * C
-  | 0, _, _, c, r, c', h => by
+    ∀ (n i : Nat) (sets : List (Nat × Nat)) (acc : List Nat) (c : Cost) (r : List Nat) (c' : Cost),
+      readSets cov base offs n i sets acc c = .ok (r, c') →
+      c'.steps ≤ c.steps + n + n * C ∧ c'.alloc ≤ c.alloc + n + n * C
+  | 0, _, _, _, c, r, c', h => by
     unfold readSets at h
     cases h
     simp
-  | n+1, i, acc, c, r, c', h => by
+  | n+1, i, sets, acc, c, r, c', h => by
     unfold readSets at h
     obtain ⟨o, _, h⟩ := bind_eq_ok h
-    obtain ⟨⟨sz, d⟩, hd, h⟩ := bind_eq_ok h
-    have ih := readSets_cost cov C hcov base offs n (i + 1) _ _ r c' h
-    have hb := hcov _ _ _ hd
-    simp only [addCost, Cost.tick] at ih
     rw [Nat.succ_mul]
-    omega
+    split at h
+    · have ih := readSets_cost cov C hcov base offs n (i + 1) _ _ _ r c' h
+      simp only [Cost.tick] at ih
+      omega
+    · obtain ⟨⟨sz, d⟩, hd, h⟩ := bind_eq_ok h
+      have ih := readSets_cost cov C hcov base offs n (i + 1) _ _ _ r c' h
+      have hb := hcov _ _ _ hd
+      simp only [addCost, Cost.tick, Cost.mem] at ih
+      omega
 
 /-! ## `gdef.Read` never panics -/
 
@@ -195,9 +206,9 @@ theorem read_noPanic (cls cov : Sub) (b : Bytes) (hcls : ∀ p, (cls p).noPanic)
   rw [hcount, ok_bind, mkSlice_ok _ _ _ hclt, ok_bind]
   refine bind_noPanic (readOffsets_noPanic _ _ _ _ _) (fun ⟨offs, c5⟩ hoffs => ?_)
   dsimp only
-  rw [mkSlice_ok _ _ _ hclt, ok_bind]
+  rw [mkSlice_ok _ 1 _ (by omega), ok_bind, mkSlice_ok _ _ _ hclt, ok_bind]
   obtain ⟨hol, _⟩ := readOffsets_ok _ _ _ _ _ _ _ hoffs
-  refine bind_noPanic (readSets_noPanic cov hcov _ offs _ _ _ _ ?_) (fun _ _ => True.intro)
+  refine bind_noPanic (readSets_noPanic cov hcov _ offs _ _ _ _ _ ?_) (fun _ _ => True.intro)
   simp only [List.length_nil] at hol
   omega
 
@@ -207,10 +218,12 @@ theorem read_cost (cls cov : Sub) (b : Bytes) (C : Nat)
     (hcls : ∀ p sz d, cls p = .ok (sz, d) → d.steps ≤ C ∧ d.alloc ≤ C)
     (hcov : ∀ p sz d, cov p = .ok (sz, d) → d.steps ≤ C ∧ d.alloc ≤ C)
     (t : Table) (c : Cost) (h : read cls cov b = .ok (t, c)) :
-    c.steps ≤ (b.length / 4 + 3) * (C + 2) + 4 ∧ c.alloc ≤ (b.length / 4 + 3) * (C + 2) + 1 := by
+    c.steps ≤ (b.length / 4 + 3) * (C + 2) + 4 ∧ c.alloc ≤ (b.length / 4 + 3) * (C + 3) + 1 := by
   have hexp : (b.length / 4 + 3) * (C + 2) = b.length / 4 * C + 2 * (b.length / 4) + 3 * C + 6 := by
     rw [Nat.add_mul, Nat.mul_add]; omega
-  rw [hexp]
+  have hexp3 : (b.length / 4 + 3) * (C + 3) = b.length / 4 * C + 3 * (b.length / 4) + 3 * C + 9 := by
+    rw [Nat.add_mul, Nat.mul_add]; omega
+  rw [hexp, hexp3]
   unfold read at h
   obtain ⟨buf, _, h⟩ := bind_eq_ok h
   obtain ⟨major, _, h⟩ := bind_eq_ok h
@@ -280,17 +293,23 @@ theorem read_cost (cls cov : Sub) (b : Bytes) (C : Nat)
   obtain ⟨⟨offs, c6⟩, h6, h⟩ := bind_eq_ok h
   obtain ⟨_, k6s, k6a, k6l⟩ := readOffsets_ok _ _ _ _ _ _ _ h6
   dsimp only at h
+  obtain ⟨cm, hm7, h⟩ := bind_eq_ok h
+  have km : cm = c6.mem 1 := by
+    unfold mkSlice at hm7
+    split at hm7
+    · cases hm7
+    · cases hm7; rfl
   obtain ⟨c7, h7, h⟩ := bind_eq_ok h
-  have k7 : c7 = c6.mem count := by
+  have k7 : c7 = cm.mem count := by
     unfold mkSlice at h7
     split at h7
     · cases h7
     · cases h7; rfl
   obtain ⟨⟨sets, c8⟩, h8, h⟩ := bind_eq_ok h
-  obtain ⟨k8s, k8a⟩ := readSets_cost cov C hcov _ _ _ _ _ _ _ _ h8
+  obtain ⟨k8s, k8a⟩ := readSets_cost cov C hcov _ _ _ _ _ _ _ _ _ h8
   dsimp only at h
   cases h
-  subst k5 k7
+  subst k5 km k7
   simp only [Cost.tick, Cost.mem] at k6s k6a k8s k8a
   have hq : count ≤ b.length / 4 := by omega
   have hm : count * C ≤ b.length / 4 * C := Nat.mul_le_mul_right C hq
@@ -298,13 +317,24 @@ theorem read_cost (cls cov : Sub) (b : Bytes) (C : Nat)
 
 /-! ## the finding: allocation is not proportional to the input size
 
-All `markGlyphSetCount` coverage offsets may point at the SAME coverage table; `gdef.Read` decodes
-(and allocates) it once per offset.  `adv n` is such a table of `18 + 4·n` bytes; with a coverage
-sub-reader that allocates `K` elements per call the allocation is `1 + 2·n + n·K`. -/
+(a) PRE-REPAIR code (`readOld`): all `markGlyphSetCount` coverage offsets may point at the SAME
+coverage table; the old `gdef.Read` decoded (and allocated) it once per offset.  `adv n` is such a
+table of `18 + 4·n` bytes; with a coverage sub-reader that allocates `K` elements per call the old
+allocation is `1 + 2·n + n·K` (`readOld_adv_alloc`).
+(b) REPAIRED code (`read`): on the same input the table is decoded once: `3 + 2·n + K`
+(`adv_alloc_cached`).
+(c) REMAINING weakness: `advDistinct n` (same size, `n` pairwise distinct offsets): every offset
+is still a full sub-read: `2 + 3·n + n·K` (`advDistinct_alloc`), so no bound proportional to the
+input length holds (`read_alloc_not_proportional`). -/
 
+/-- GDEF 1.2 header, MarkGlyphSetsDef at 14 with the coverage offsets `vs` -/
+def advOf (vs : List Nat) : Bytes :=
+  [0,1,0,2, 0,0, 0,0, 0,0, 0,0, 0,14] ++ [0,1] ++ be16 vs.length ++ (vs.map be32).flatten
 /-- GDEF 1.2 header, MarkGlyphSetsDef at 14 with `n` offsets all equal to `4 + 4·n` -/
 def adv (n : Nat) : Bytes :=
   [0,1,0,2, 0,0, 0,0, 0,0, 0,0, 0,14] ++ [0,1] ++ be16 n ++ (List.replicate n (be32 (4 + 4*n))).flatten
+/-- the same with `n` pairwise DISTINCT offsets `4 + 4·n + i`, `i = 0 … n-1` -/
+def advDistinct (n : Nat) : Bytes := advOf ((List.range n).map (fun i => 4 + 4*n + i))
 /-- coverage sub-reader: every call decodes a table of `K` glyphs: `K + 1` steps, `K` allocations -/
 def covK (K : Nat) : Sub := fun _ => .ok (K, ⟨K + 1, K⟩)
 
@@ -324,41 +354,52 @@ theorem flat_length (k : Nat) (v : Nat) : (List.replicate k (be32 v)).flatten.le
     simp only [be32, List.length_cons, List.length_nil]
     omega
 
-theorem readOffsets_rep (b : Bytes) (v : Nat) (hv : v < 4294967296) :
-    ∀ (k pos : Nat) (acc : List Nat) (c : Cost),
-      b.drop pos = (List.replicate k (be32 v)).flatten →
-      readOffsets b k pos acc c = .ok (acc.reverse ++ List.replicate k v, ⟨c.steps + k, c.alloc⟩)
-  | 0, _, acc, c, _ => by
+theorem flatMap_length : ∀ (vs : List Nat), ((vs.map be32).flatten).length = 4 * vs.length
+  | [] => rfl
+  | v :: vs => by
+    rw [List.map_cons, List.flatten_cons, List.length_append, flatMap_length vs]
+    simp only [be32, List.length_cons, List.length_nil]
+    omega
+
+theorem adv_eq (n : Nat) : adv n = advOf (List.replicate n (4 + 4 * n)) := by
+  simp only [adv, advOf, List.map_replicate, List.length_replicate]
+
+theorem readOffsets_list (b : Bytes) :
+    ∀ (vs : List Nat) (pos : Nat) (acc : List Nat) (c : Cost), (∀ v ∈ vs, v < 4294967296) →
+      b.drop pos = (vs.map be32).flatten →
+      readOffsets b vs.length pos acc c = .ok (acc.reverse ++ vs, ⟨c.steps + vs.length, c.alloc⟩)
+  | [], _, acc, c, _, _ => by
     simp [readOffsets]
-  | k+1, pos, acc, c, h => by
-    have hlen : (b.drop pos).length = 4 * (k + 1) := by rw [h, flat_length]
+  | v :: vs, pos, acc, c, hv, h => by
+    have hlen : (b.drop pos).length = 4 * (vs.length + 1) := by
+      rw [h, flatMap_length, List.length_cons]
     rw [List.length_drop] at hlen
     have hrb : readBytes "gdef.go:121#ReadUint32" b pos 4 = .ok (be32 v) := by
       unfold readBytes
-      rw [if_neg (by omega), if_pos (by omega), h, List.replicate_succ, List.flatten_cons]
+      rw [if_neg (by omega), if_pos (by omega), h, List.map_cons, List.flatten_cons]
       rfl
-    have hnext : b.drop (pos + 4) = (List.replicate k (be32 v)).flatten := by
-      rw [← List.drop_drop, h, List.replicate_succ, List.flatten_cons]
+    have hnext : b.drop (pos + 4) = (vs.map be32).flatten := by
+      rw [← List.drop_drop, h, List.map_cons, List.flatten_cons]
       rfl
+    rw [List.length_cons]
     unfold readOffsets
-    rw [hrb, ok_bind, w32_be32 _ _ hv, ok_bind, readOffsets_rep b v hv k (pos + 4) (v :: acc) c.tick hnext]
-    simp only [List.reverse_cons, List.append_assoc, List.singleton_append, List.replicate_succ, Cost.tick]
+    rw [hrb, ok_bind, w32_be32 _ _ (hv v (List.mem_cons_self ..)), ok_bind,
+      readOffsets_list b vs (pos + 4) (v :: acc) c.tick
+        (fun w hw => hv w (List.mem_cons_of_mem _ hw)) hnext]
+    simp only [List.reverse_cons, List.append_assoc, List.singleton_append, Cost.tick]
     congr 3
     omega
 
-theorem readSets_rep (K base m v : Nat) :
-    ∀ (k i : Nat) (acc : List Nat) (c : Cost), i + k ≤ m →
-      ∃ r c', readSets (covK K) base (List.replicate m v) k i acc c = .ok (r, c') ∧
-        c'.alloc = c.alloc + k * K
-  | 0, _, acc, c, _ => ⟨_, _, rfl, by simp⟩
-  | k+1, i, acc, c, h => by
-    unfold readSets
-    rw [idx_ok _ _ i (by rw [List.length_replicate]; omega), ok_bind]
-    obtain ⟨r, c', hr, hc⟩ := readSets_rep K base m v k (i + 1) (K :: acc) (addCost c.tick ⟨K + 1, K⟩) (by omega)
-    refine ⟨r, c', hr, ?_⟩
-    rw [hc, Nat.succ_mul]
-    simp only [addCost, Cost.tick]
-    omega
+theorem readOffsets_rep (b : Bytes) (v : Nat) (hv : v < 4294967296) :
+    ∀ (k pos : Nat) (acc : List Nat) (c : Cost),
+      b.drop pos = (List.replicate k (be32 v)).flatten →
+      readOffsets b k pos acc c = .ok (acc.reverse ++ List.replicate k v, ⟨c.steps + k, c.alloc⟩) := by
+  intro k pos acc c h
+  have := readOffsets_list b (List.replicate k v) pos acc c
+    (fun w hw => by rw [List.eq_of_mem_replicate hw]; exact hv)
+    (by rw [List.map_replicate]; exact h)
+  rw [List.length_replicate] at this
+  exact this
 
 theorem readBytes_prefix (site : String) (P T : Bytes) (pos n : Nat) (hn : n ≤ 1024)
     (h : pos + n ≤ P.length) : readBytes site (P ++ T) pos n = .ok ((P.drop pos).take n) := by
@@ -367,13 +408,72 @@ theorem readBytes_prefix (site : String) (P T : Bytes) (pos n : Nat) (hn : n ≤
     List.drop_append_of_le_length (by omega),
     List.take_append_of_le_length (by rw [List.length_drop]; omega)]
 
+theorem advOf_length (vs : List Nat) : (advOf vs).length = 18 + 4 * vs.length := by
+  unfold advOf
+  rw [List.length_append, flatMap_length]
+  rfl
+
 theorem adv_length (n : Nat) : (adv n).length = 18 + 4 * n := by
   unfold adv
   rw [List.length_append, flat_length]
   rfl
 
-theorem adv_alloc (n K : Nat) (hn : n < 65536) (cls : Sub) :
-    ∃ t c, read cls (covK K) (adv n) = .ok (t, c) ∧ c.alloc = 1 + 2 * n + n * K ∧
+theorem advDistinct_length (n : Nat) : (advDistinct n).length = 18 + 4 * n := by
+  unfold advDistinct
+  rw [advOf_length, List.length_map, List.length_range]
+
+/-- the header part of `read` on `advOf vs`: everything up to the mark-glyph-set loop succeeds
+with cost `⟨3 + n, 2 + 2·n⟩`, whatever the sub-readers are -/
+theorem read_advOf (cls cov : Sub) (vs : List Nat) (hn : vs.length < 65536)
+    (hv : ∀ v ∈ vs, v < 4294967296) (r : List Nat) (c' : Cost)
+    (hr : readSets cov 14 vs vs.length 0 [] [] ⟨3 + vs.length, 1 + vs.length + 1 + vs.length⟩ = .ok (r, c')) :
+    read cls cov (advOf vs) = .ok (⟨none, none, some r⟩, c') := by
+  have hb0 : readBytes "gdef.go:51#ReadBytes(12)" (advOf vs) 0 12 = .ok [0,1,0,2, 0,0, 0,0, 0,0, 0,0] :=
+    readBytes_prefix _ _ _ 0 12 (by omega) (by simp [be16])
+  have hb12 : readBytes "gdef.go:69#ReadUint16" (advOf vs) 12 2 = .ok [0,14] :=
+    readBytes_prefix _ _ _ 12 2 (by omega) (by simp [be16])
+  have hb14 : readBytes "gdef.go:107#ReadBytes(4)" (advOf vs) 14 4 = .ok (0 :: 1 :: be16 vs.length) :=
+    readBytes_prefix _ _ _ 14 4 (by omega) (by simp [be16])
+  have hdrop : (advOf vs).drop (14 + 4) = (vs.map be32).flatten := by
+    unfold advOf
+    rw [List.drop_append_of_le_length (by simp [be16])]
+    rfl
+  have hbe : (UInt8.ofNat (vs.length / 256 % 256)).toNat * 256 + (UInt8.ofNat (vs.length % 256)).toNat
+      = vs.length := by
+    simp only [UInt8.toNat_ofNat']; omega
+  unfold read
+  simp only [hb0, hb12, ok_bind, pure_bind', w16, idx, be, List.getElem?_cons_succ,
+    List.getElem?_cons_zero]
+  have h0 : UInt8.toNat 0 = 0 := rfl
+  have h1 : UInt8.toNat 1 = 1 := rfl
+  have h2 : UInt8.toNat 2 = 2 := rfl
+  have h14 : UInt8.toNat 14 = 14 := rfl
+  simp only [h0, h1, h2, h14, Nat.reduceMul, Nat.reduceAdd, ne_eq, Nat.reduceEqDiff, not_true_eq_false,
+    false_or, and_false, if_false, ge_iff_le, Nat.reduceLeDiff, Nat.le_refl, if_true, pure_bind', ok_bind,
+    not_false_eq_true, and_true, hb14, List.getElem?_cons_succ,
+    List.getElem?_cons_zero, be16, hbe, Cost.zero, Cost.tick, Cost.mem, mkSlice_ok _ _ _ hn,
+    mkSlice_ok _ 1 _ (by omega : 1 < 65536),
+    readOffsets_list _ _ _ _ _ hv hdrop, List.reverse_nil, List.nil_append, hr]
+
+/-! ### (a) the pre-repair code: one sub-read per offset ENTRY -/
+
+theorem readSetsOld_rep (K base m v : Nat) :
+    ∀ (k i : Nat) (acc : List Nat) (c : Cost), i + k ≤ m →
+      ∃ r c', readSetsOld (covK K) base (List.replicate m v) k i acc c = .ok (r, c') ∧
+        c'.alloc = c.alloc + k * K
+  | 0, _, acc, c, _ => ⟨_, _, rfl, by simp⟩
+  | k+1, i, acc, c, h => by
+    unfold readSetsOld
+    rw [idx_ok _ _ i (by rw [List.length_replicate]; omega), ok_bind]
+    obtain ⟨r, c', hr, hc⟩ := readSetsOld_rep K base m v k (i + 1) (K :: acc) (addCost c.tick ⟨K + 1, K⟩) (by omega)
+    refine ⟨r, c', hr, ?_⟩
+    rw [hc, Nat.succ_mul]
+    simp only [addCost, Cost.tick]
+    omega
+
+/-- PRE-REPAIR `gdef.Read` on the aliasing input: `n` sub-reads of the one coverage table -/
+theorem readOld_adv_alloc (n K : Nat) (hn : n < 65536) (cls : Sub) :
+    ∃ t c, readOld cls (covK K) (adv n) = .ok (t, c) ∧ c.alloc = 1 + 2 * n + n * K ∧
       (adv n).length = 18 + 4 * n := by
   have hv : 4 + 4 * n < 4294967296 := by omega
   have hb0 : readBytes "gdef.go:51#ReadBytes(12)" (adv n) 0 12 = .ok [0,1,0,2, 0,0, 0,0, 0,0, 0,0] :=
@@ -386,12 +486,12 @@ theorem adv_alloc (n K : Nat) (hn : n < 65536) (cls : Sub) :
     unfold adv
     rw [List.drop_append_of_le_length (by simp [be16])]
     rfl
-  obtain ⟨r, c', hr, hc⟩ := readSets_rep K 14 n (4 + 4 * n) n 0 []
+  obtain ⟨r, c', hr, hc⟩ := readSetsOld_rep K 14 n (4 + 4 * n) n 0 []
     ⟨3 + n, 1 + n + n⟩ (by omega)
   refine ⟨⟨none, none, some r⟩, c', ?_, ?_, adv_length n⟩
   · have hbe : (UInt8.ofNat (n / 256 % 256)).toNat * 256 + (UInt8.ofNat (n % 256)).toNat = n := by
       simp only [UInt8.toNat_ofNat']; omega
-    unfold read
+    unfold readOld
     simp only [hb0, hb12, ok_bind, pure_bind', w16, idx, be, List.getElem?_cons_succ,
       List.getElem?_cons_zero]
     have h0 : UInt8.toNat 0 = 0 := rfl
@@ -405,13 +505,135 @@ theorem adv_alloc (n K : Nat) (hn : n < 65536) (cls : Sub) :
       readOffsets_rep _ _ hv _ _ _ _ hdrop, List.reverse_nil, List.nil_append, hr]
   · dsimp only at hc; omega
 
-/-- no bound of the form `alloc ≤ 4096·(input length) + 2^24` holds for `gdef.Read`, even with a
-coverage reader whose own allocation is at most 65536 elements per call (witness `adv 1000`,
-4018 bytes, 65 538 001 elements) -/
+/-- the pre-repair code violated the allocation clause already on the aliasing input
+(`adv 1000`, 4018 bytes, 65 538 001 elements) -/
+theorem readOld_alloc_not_proportional (cls : Sub) :
+    ¬ ∀ b t c, readOld cls (covK 65536) b = .ok (t, c) → c.alloc ≤ 4096 * b.length + 16777216 := by
+  intro h
+  obtain ⟨t, c, hr, ha, hl⟩ := readOld_adv_alloc 1000 65536 (by omega) cls
+  have := h _ t c hr
+  rw [ha, hl] at this
+  omega
+
+/-! ### (b) the repaired code on the aliasing input: ONE sub-read -/
+
+/-- once the offset `v` is in the map, the remaining iterations cost one step each and allocate
+nothing -/
+theorem readSets_rep_hit (K base m v s : Nat) (sets : List (Nat × Nat)) (hs : sets.lookup v = some s) :
+    ∀ (k i : Nat) (acc : List Nat) (c : Cost), i + k ≤ m →
+      ∃ r, readSets (covK K) base (List.replicate m v) k i sets acc c = .ok (r, ⟨c.steps + k, c.alloc⟩)
+  | 0, _, acc, c, _ => ⟨_, rfl⟩
+  | k+1, i, acc, c, h => by
+    unfold readSets
+    rw [idx_ok _ _ i (by rw [List.length_replicate]; omega), ok_bind]
+    simp only [List.getElem_replicate, hs]
+    obtain ⟨r, hr⟩ := readSets_rep_hit K base m v s sets hs k (i + 1) (s :: acc) c.tick (by omega)
+    refine ⟨r, ?_⟩
+    rw [hr]
+    simp only [Cost.tick]
+    congr 3
+    omega
+
+/-- REPAIRED `gdef.Read` on the aliasing input `adv n` (`n ≥ 1`): exactly one sub-read -/
+theorem adv_alloc_cached_eq (n K : Nat) (hn : n < 65536) (hpos : 0 < n) (cls : Sub) :
+    ∃ t c, read cls (covK K) (adv n) = .ok (t, c) ∧ c.alloc = 3 + 2 * n + K ∧
+      c.steps = 4 + 2 * n + K ∧ (adv n).length = 18 + 4 * n := by
+  obtain ⟨m, rfl⟩ : ∃ m, n = m + 1 := ⟨n - 1, by omega⟩
+  have hstep : ∃ r, readSets (covK K) 14 (List.replicate (m + 1) (4 + 4 * (m + 1))) (m + 1) 0 [] []
+      ⟨3 + (m + 1), 1 + (m + 1) + 1 + (m + 1)⟩ =
+      .ok (r, ⟨3 + (m + 1) + 1 + (K + 1) + m, 1 + (m + 1) + 1 + (m + 1) + K + 1⟩) := by
+    unfold readSets
+    rw [idx_ok _ _ 0 (by rw [List.length_replicate]; omega), ok_bind]
+    simp only [List.getElem_replicate, List.lookup_nil, covK, ok_bind]
+    obtain ⟨r, hr⟩ := readSets_rep_hit K 14 (m + 1) (4 + 4 * (m + 1)) K [(4 + 4 * (m + 1), K)] (by simp)
+      m (0 + 1) [K] ((addCost (Cost.tick ⟨3 + (m + 1), 1 + (m + 1) + 1 + (m + 1)⟩) ⟨K + 1, K⟩).mem 1) (by omega)
+    exact ⟨r, hr⟩
+  obtain ⟨r, hr⟩ := hstep
+  refine ⟨⟨none, none, some r⟩,
+    ⟨3 + (m + 1) + 1 + (K + 1) + m, 1 + (m + 1) + 1 + (m + 1) + K + 1⟩, ?_, ?_, ?_, adv_length _⟩
+  · rw [adv_eq]
+    refine read_advOf cls (covK K) _ (by rw [List.length_replicate]; exact hn)
+      (fun w hw => by rw [List.eq_of_mem_replicate hw]; omega) r _ ?_
+    rw [List.length_replicate]
+    exact hr
+  · dsimp only; omega
+  · dsimp only; omega
+
+/-- REPAIRED `gdef.Read` on the aliasing input: the allocation no longer grows with `n·K` -/
+theorem adv_alloc_cached (n K : Nat) (hn : n < 65536) (cls : Sub) :
+    ∃ t c, read cls (covK K) (adv n) = .ok (t, c) ∧ c.alloc ≤ 3 + 2 * n + K ∧
+      (adv n).length = 18 + 4 * n := by
+  cases n with
+  | zero =>
+    refine ⟨⟨none, none, some []⟩, ⟨3, 2⟩, ?_, by dsimp only; omega, adv_length 0⟩
+    rw [adv_eq]
+    exact read_advOf cls (covK K) [] (by decide) (fun _ h => nomatch h) [] _ rfl
+  | succ m =>
+    obtain ⟨t, c, h, ha, _, hl⟩ := adv_alloc_cached_eq (m + 1) K hn (by omega) cls
+    exact ⟨t, c, h, by omega, hl⟩
+
+/-! ### (c) the remaining weakness: distinct offsets are each a full sub-read -/
+
+theorem lookup_none_of_lt (x : Nat) :
+    ∀ (sets : List (Nat × Nat)), (∀ p ∈ sets, p.1 < x) → sets.lookup x = none
+  | [], _ => rfl
+  | (k, s) :: es, h => by
+    have hk : k < x := h (k, s) (List.mem_cons_self ..)
+    have hne : (x == k) = false := by simp; omega
+    rw [List.lookup_cons, hne]
+    exact lookup_none_of_lt x es (fun p hp => h p (List.mem_cons_of_mem _ hp))
+
+theorem readSets_distinct (K base a n : Nat) :
+    ∀ (k i : Nat) (sets : List (Nat × Nat)) (acc : List Nat) (c : Cost), i + k ≤ n →
+      (∀ p ∈ sets, p.1 < a + i) →
+      ∃ r c', readSets (covK K) base ((List.range n).map (fun j => a + j)) k i sets acc c = .ok (r, c') ∧
+        c'.alloc = c.alloc + k * (K + 1) ∧ c'.steps = c.steps + k * (K + 2)
+  | 0, _, _, acc, c, _, _ => ⟨_, _, rfl, by simp, by simp⟩
+  | k+1, i, sets, acc, c, h, hs => by
+    unfold readSets
+    rw [idx_ok _ _ i (by rw [List.length_map, List.length_range]; omega), ok_bind]
+    simp only [List.getElem_map, List.getElem_range, lookup_none_of_lt (a + i) sets hs, covK, ok_bind]
+    obtain ⟨r, c', hr, hc, hst⟩ := readSets_distinct K base a n k (i + 1) ((a + i, K) :: sets) (K :: acc)
+      ((addCost c.tick ⟨K + 1, K⟩).mem 1) (by omega) (by
+        intro p hp
+        rcases List.mem_cons.mp hp with rfl | hp
+        · dsimp only; omega
+        · have := hs p hp; omega)
+    refine ⟨r, c', hr, ?_, ?_⟩
+    · rw [hc, Nat.succ_mul]
+      simp only [addCost, Cost.tick, Cost.mem]
+      omega
+    · rw [hst, Nat.succ_mul]
+      simp only [addCost, Cost.tick, Cost.mem]
+      omega
+
+/-- REPAIRED `gdef.Read` on `n` DISTINCT offsets (`18 + 4·n` bytes): `n` full sub-reads -/
+theorem advDistinct_alloc (n K : Nat) (hn : n < 65536) (cls : Sub) :
+    ∃ t c, read cls (covK K) (advDistinct n) = .ok (t, c) ∧ c.alloc = 2 + 3 * n + n * K ∧
+      (advDistinct n).length = 18 + 4 * n := by
+  obtain ⟨r, c', hr, hc, _⟩ := readSets_distinct K 14 (4 + 4 * n) n n 0 [] []
+    ⟨3 + n, 1 + n + 1 + n⟩ (by omega) (fun _ h => nomatch h)
+  refine ⟨⟨none, none, some r⟩, c', ?_, ?_, advDistinct_length n⟩
+  · unfold advDistinct
+    refine read_advOf cls (covK K) _ (by rw [List.length_map, List.length_range]; exact hn) ?_ r c' ?_
+    · intro w hw
+      obtain ⟨j, hj, rfl⟩ := List.mem_map.mp hw
+      have := List.mem_range.mp hj
+      omega
+    · rw [List.length_map, List.length_range]
+      exact hr
+  · rw [hc, Nat.mul_add]
+    dsimp only
+    omega
+
+/-- no bound of the form `alloc ≤ 4096·(input length) + 2^24` holds for the REPAIRED `gdef.Read`
+either, even with a coverage reader whose own allocation is at most 65536 elements per call
+(witness `advDistinct 1000`, 4018 bytes, 65 539 002 elements: 1000 distinct offsets, each a full
+sub-read) -/
 theorem read_alloc_not_proportional (cls : Sub) :
     ¬ ∀ b t c, read cls (covK 65536) b = .ok (t, c) → c.alloc ≤ 4096 * b.length + 16777216 := by
   intro h
-  obtain ⟨t, c, hr, ha, hl⟩ := adv_alloc 1000 65536 (by omega) cls
+  obtain ⟨t, c, hr, ha, hl⟩ := advDistinct_alloc 1000 65536 (by omega) cls
   have := h _ t c hr
   rw [ha, hl] at this
   omega
@@ -423,10 +645,27 @@ set_option maxRecDepth 8192 in
 example (cls cov : Sub) :
     read cls cov [0,1,0,0, 0,0,0,0,0,0,0,0] = .ok (⟨none, none, none⟩, ⟨1, 1⟩) := by rfl
 
-/-- concrete instance of the aliasing input: 8 offsets, 50 bytes, `8·2^24` elements -/
-example : ∃ t c, read (fun _ => .err "x") (covK 16777216) (adv 8) = .ok (t, c) ∧
+/-- pre-repair code on the aliasing input: 8 offsets, 50 bytes, `8·2^24` elements -/
+example : ∃ t c, readOld (fun _ => .err "x") (covK 16777216) (adv 8) = .ok (t, c) ∧
     c.alloc = 17 + 8 * 16777216 ∧ (adv 8).length = 50 := by
-  obtain ⟨t, c, h, ha, hl⟩ := adv_alloc 8 16777216 (by omega) (fun _ => .err "x")
+  obtain ⟨t, c, h, ha, hl⟩ := readOld_adv_alloc 8 16777216 (by omega) (fun _ => .err "x")
   exact ⟨t, c, h, by omega, by omega⟩
+
+/-- repaired code on the same input: one sub-read, `19 + 2^24` elements -/
+example : ∃ t c, read (fun _ => .err "x") (covK 16777216) (adv 8) = .ok (t, c) ∧
+    c.alloc = 19 + 16777216 ∧ (adv 8).length = 50 := by
+  obtain ⟨t, c, h, ha, _, hl⟩ := adv_alloc_cached_eq 8 16777216 (by omega) (by omega) (fun _ => .err "x")
+  exact ⟨t, c, h, by omega, by omega⟩
+
+/-- repaired code on 8 distinct offsets (also 50 bytes): eight sub-reads again -/
+example : ∃ t c, read (fun _ => .err "x") (covK 16777216) (advDistinct 8) = .ok (t, c) ∧
+    c.alloc = 26 + 8 * 16777216 ∧ (advDistinct 8).length = 50 := by
+  obtain ⟨t, c, h, ha, hl⟩ := advDistinct_alloc 8 16777216 (by omega) (fun _ => .err "x")
+  exact ⟨t, c, h, by omega, by omega⟩
+
+set_option maxRecDepth 8192 in
+/-- a concrete run of the cache: offsets 12, 12, 16 → two sub-reads (sizes 5 and 7), sets 5,5,7 -/
+example : read (fun _ => .err "x") (fun p => if p = 26 then .ok (5, ⟨6, 5⟩) else .ok (7, ⟨8, 7⟩))
+      (advOf [12, 12, 16]) = .ok (⟨none, none, some [5, 5, 7]⟩, ⟨23, 22⟩) := by rfl
 
 end SfntV.Total.Gdef
